@@ -22,6 +22,7 @@ def check(chk, thorough=False):
     chk.run('C02.e', 'R-TRUTH', 'conversions preserve values: no truthiness test on a converted value, decoded flag/enum integers wrapped unchanged, plain IntFlag enums, unnormalised EID parts, exact time arithmetic', lambda ob: c02e(tree, ob), floor=20)
     chk.run('C02.f', 'sibling', 'checking a CRC leaves the block as it was: update_crc / check_crc agree and the received value is restored (= C08.c)', lambda ob: __import__('sa.props.c08', fromlist=['c08c']).c08c(tree, ob), floor=8)
     chk.run('C02.g', 'R-SCHEMA', 'every CBOR structure is built as one packet (no expansion over array content), and an arity test in the bundle decoder admits every legal block size (8 to 11, 5 or 6)', lambda ob: c02g(tree, ob), floor=2)
+    chk.run('C02.h', 'R-ESCAPE', 'an administrative payload that cannot be parsed stays opaque block data: the handler around the parse is broad (any failure), the bundle still decodes', lambda ob: c02h(tree, ob), floor=1)
     chk.run('C02.d', 'R-PAIR', 'encoded block data wins and is regenerated from the parsed payload only when absent; builders ensure it; admin records are reflected in flag, type and data and re-attached only under the admin flag', lambda ob: c02d(tree, ob), floor=7)
 
 
@@ -621,3 +622,20 @@ def c02g(tree, ob):
                 ob.site(rel, cmp_, 'arity test admits every legal size')
     if not n:
         ob.site(BUNDLE, tree.klass(BUNDLE, 'Bundle'), 'the bundle decoder makes no arity test against constants (field decoding decides)')
+
+
+def c02h(tree, ob):
+    ''' "payloads of known and unknown type": the payload of a bundle flagged as administrative record is parsed as one on
+    decode; whatever that parse raises -- a reason code outside the enumeration is a ValueError inside a TypeError path, an
+    unknown record type a KeyError ... -- the payload just stays opaque block data.  The handler around the parse is therefore
+    the broad one; narrowed to a list of "decode errors", the ones not on the list make the whole bundle undecodable. '''
+    from ..cfg import handler_names
+    fv = FuncView(tree, BUNDLE, 'Bundle.post_dissect')
+    tries = [t for t in walk_local(fv.func) if isinstance(t, ast.Try) and any(isinstance(c, ast.Call) and (call_name(c) or '').endswith('AdminRecord') for st in t.body for c in ast.walk(st))]
+    tr = one(tries, 'try around the administrative record parse in Bundle.post_dissect', ob)
+    names = [(nm or 'BaseException').split('.')[-1] for h in tr.handlers for nm in handler_names(h)]
+    if any(nm in ('Exception', 'BaseException') for nm in names):
+        ob.site(BUNDLE, tr, 'an unparsable administrative payload stays opaque (broad handler)')
+    else:
+        ob.violate(BUNDLE, fv.qual, 'except ({}) around AdminRecord(...)'.format(', '.join(names))[:90], 'the parse of an administrative payload is guarded against a list of exception types only: a record that fails '
+                   'in another way (an unassigned reason code, an unknown record layout) makes the whole bundle undecodable instead of keeping its payload as opaque data', tr.handlers[0] if tr.handlers else tr, sure=True)
